@@ -138,6 +138,10 @@ def gen_dl_cases(rng, n):
         [(0, 3), (1, 100), (0, 4), (1, 1), (2, 0), (0, 2)],                   # left open
         [(1, 0), (2, 0), (3, 0)],                                             # taken with no room, dropped, closed
         [(1, 19), (0, 40), (1, 0), (0, 7), (2, 0), (2, 0), (1, 39), (2, 0), (3, 0)],
+        # the response ends while the client pauses for 12 s and 45 s (it takes nothing, then everything): a pause is not a failure
+        # (the message must still be in the channel when the end is noticed, and the codec tosses a coin between the two: 12 rounds)
+        [(1, 19), (0, 300), (4, 12000)],
+        [(1, 19), (0, 17), (2, 0), (4, 45000)],
     ]
     for k in range(n):
         if k < len(fixed):
@@ -153,18 +157,18 @@ def gen_dl_cases(rng, n):
                 else:
                     ops.append((2, 0))
             if rng.chance(85, 100):
-                ops.append((3, 0))
+                ops.append((3, 0) if rng.chance(3, 4) else (4, rng.choice([1000, 9500, 10500, 30000])))
         flat_ops = [x for op in ops for x in op]
-        li = line("c18_dl", [flat_ops, list(DL_HEAD)])
+        li = line("c18_dl", [flat_ops, list(DL_HEAD), [12 if any(o[0] == 4 for o in ops) else 1]])
         drops = sum(1 for o in ops if o[0] == 2)
-        cases.append(Case(li, li, kind="h1-download:%s%s" % ("closed" if ops and ops[-1][0] == 3 else "open", "-dropped-futures" if drops else ""),
+        cases.append(Case(li, li, kind="h1-download:%s%s" % ("closed" if ops and ops[-1][0] >= 3 else "open", "-dropped-futures" if drops else ""),
                           nontrivial=True, meta={"dl": True, "ops": ops}))
     return cases
 
 
 def judge_dl(case, impl, model):
     ops = case.meta["ops"]
-    what = "HTTP/1.1 response side, script %s" % " ".join("%s%s" % ("OPDC"[k], a if k < 2 else "") for k, a in ops)
+    what = "HTTP/1.1 response side, script %s" % " ".join("%s%s" % ("OPDCS"[k], a if k != 2 and k != 3 else "") for k, a in ops)
     if impl in ("999", "995", "997") or impl.startswith("997"):
         return [("violation", "%s: the codec %s" % (what, {"999": "panicked", "995": "got stuck"}.get(impl, "answered with another head than HTTP/1.1 200 OK or refused the request")))]
     t = impl.split()
@@ -183,7 +187,7 @@ def judge_dl(case, impl, model):
         out.append(("violation", "%s: the client was sent %d bytes that are not a prefix of the %d accepted ones (they part at offset %d)" % (what, len(wire), len(accepted), n)))
     elif any(b < a for a, b in zip(lens, lens[1:])):
         out.append(("violation", "%s: bytes on the wire went %s" % (what, lens)))
-    elif ops and ops[-1][0] == 3 and (end != 1 or len(wire) != len(accepted)):
+    elif ops and ops[-1][0] >= 3 and (end != 1 or len(wire) != len(accepted)):
         out.append(("violation", "%s: the response was ended in order and the client got %d of the %d bytes the codec had accepted (end %d)" % (what, len(wire), len(accepted), end)))
     if not out and model is not None and impl != model:
         out.append(("mismatch", "%s: the codec gave %s, the model %s" % (what, impl[:200], model[:200])))
